@@ -368,11 +368,16 @@ class Component( ComponentLevel7 ):
             saved_upblk_writes.append( (blk, repr(x)) )
         parent._dsl.upblk_writes[blk] -= to_save
 
+      # A call to a method of the removed component is recorded either as
+      # a method port or as the callee interface that wraps it.
+      removed_callees = removed_connectables | \
+        foo._collect_all_single( lambda x: isinstance( x, Interface ) )
+
       for blk, calls in parent._dsl.upblk_calls.items():
         assert blk in top._dsl.all_upblk_calls
         to_save = set()
         for x in calls:
-          if x in removed_connectables:
+          if x in removed_callees:
             to_save.add( x )
             saved_upblk_calls.append( (blk, repr(x)) )
         parent._dsl.upblk_calls[blk] -= to_save
@@ -397,7 +402,7 @@ class Component( ComponentLevel7 ):
       for func, calls in parent._dsl.func_calls.items():
         to_save = set()
         for x in calls:
-          if x in removed_connectables:
+          if x in removed_callees:
             to_save.add( x )
             saved_func_calls.append( (func, repr(x)) )
         parent._dsl.func_calls[func] -= to_save
